@@ -18,6 +18,6 @@ PROP = {
 
 TEXT = {
     "technique": "property-based testing: shape/alphabet/length/accuracy predicates on every rendering (exhaustive over all 2^32 float patterns x 7 precisions in thorough), differential against host strtod within stated ulp bounds for a literal grammar, exact heap buffers under ASan/UBSan, libFuzzer in thorough",
-    "level": "Generated-input exploration: igris_f32toa/f64toa/ftoa are run on floats from boundary classes (carry-prone nines, powers of two +- ulp, 2^24/2^31/2^64 limits, inf/nan, random bit patterns, genuine doubles) x precisions -1..12 into a worst-case-sized exact buffer and judged by shape (-?digits(.digits{p})?), inf/nan tokens, numeric-only characters, termination inside the buffer and |value-x| <= one unit of the last digit + 4 float ulp; the thorough tier sweeps every one of the 2^32 float bit patterns at 7 precisions. Parsing: literals [+-]d*[.d*][(e|E)[+-]d+] (<=19 significant digits, exponents to +-300) and host %.17g renderings followed by any terminator byte go through igris_atof32, igris_atof64, igris_strtod and the libc strtod/atof shims and must be within 8 ulp (double) / 4 ulp (float) of host strtod with the end pointer at the end of the literal; the measured error histogram is in the evidence.  A separate target parses long literals (up to 80 significant digits, zero runs of 20..400, leading zeros, compensating exponents). Nothing is established beyond the explored inputs.",
+    "level": "Generated-input exploration: igris_f32toa/f64toa/ftoa are run on floats from boundary classes (carry-prone nines, powers of two +- ulp, 2^24/2^31/2^64 limits, inf/nan, random bit patterns, genuine doubles) x precisions -1..12 into a worst-case-sized exact buffer and judged by shape (-?digits(.digits{p})?), inf/nan tokens, numeric-only characters, termination inside the buffer and |value-x| <= one unit of the last digit + 4 float ulp; the thorough tier sweeps every one of the 2^32 float bit patterns at 7 precisions. Parsing: literals [+-]d*[.d*][(e|E)[+-]d+] (<=19 significant digits, exponents to +-300) and host %.17g renderings followed by any terminator byte go through igris_atof32, igris_atof64, igris_strtod and the libc strtod/atof shims and must be within 8 ulp (double) / 4 ulp (float) of host strtod with the end pointer at the end of the literal; the measured error histogram is in the evidence.  A separate target parses long literals (up to 80 significant digits, zero runs of 20..400, leading zeros, compensating exponents). Nothing is established beyond the explored inputs. Every igris_atof32 case also goes through binreader::read_ascii_decimal_float (value and stream position).",
     "note": "Trusted: host strtod/strtof as correctly rounded references; 'a few ulps' is read as 8 (double) / 4 (float) and 'representation error' as 4 float ulps -- measured errors are far below (labels err>0.5ulp / err>2ulp); debug_printdec_double_prec is not judged.",
 }
